@@ -23,7 +23,7 @@ Definition res_ok (c : cfg) (s : st) : Prop :=
   | Some Returned => forall k, k < n c -> ts s k = TDone /\ fails c k = false
   | Some (Raised (EChained e)) =>
       (forall k, k < n c -> ts s k = TDone) /\ fails c e = true /\ e < n c /\ hd_error (errors s) = Some e
-  | Some (Raised (EKey k)) => args c k = None /\ k < n c
+  | Some (Raised (EKey k)) => args c k = None /\ k < n c /\ spawned s = k
   | Some (Raised _) => False
   end.
 
@@ -94,10 +94,10 @@ Qed.
 (* res_ok survives a thread event that changes ts at k (from a non-terminal state) and possibly appends to errors *)
 Lemma res_ok_thread c s s' k :
   inv c s -> ts s k <> TDone -> ts s k <> TNot ->
-  result s' = result s -> n c = n c ->
+  result s' = result s -> spawned s' = spawned s ->
   res_ok c s'.
 Proof.
-  intros I Hd Hn Hr _. unfold res_ok. rewrite Hr.
+  intros I Hd Hn Hr Hsp. unfold res_ok. rewrite Hr, Hsp.
   pose proof (res_all_done c s I) as A. pose proof (i_res c s I) as R. unfold res_ok in R.
   destruct (result s) as [[|[]]|]; try exact R; try exact Logic.I.
   - destruct (A k); contradiction.
@@ -146,7 +146,7 @@ Proof.
         -- rewrite upd_same. split; discriminate.
         -- rewrite upd_other by exact Hne. now apply (i_flag_f c s I).
       * exact Logic.I.
-    + destruct I. constructor; cbn; try assumption. unfold res_ok. cbn. split; assumption.
+    + destruct I. constructor; cbn; try assumption. unfold res_ok. cbn. repeat split; assumption.
   - (* MJoin *)
     destruct (is_none (result s) && (spawned s =? n c) && (joined s <? n c) && tstate_eqb (ts s (joined s)) TDone) eqn:G;
       [|discriminate].
